@@ -718,6 +718,12 @@ func (c *Ctx) trCall(x *ast.CallExpr) Val {
 		i := c.intT(args[1])
 		v := c.tr(args[2])
 		return Val{a.T, []string{app("store", a.C[0], i, v.C[0])}}
+	case "implements":
+		// implements(ifaceValue, "pkg.Interface"): the dynamic type of the value implements the interface
+		// (the same uninterpreted predicate a type assertion to that interface tests)
+		v := c.tr(args[0])
+		lit, _ := litOf(args[1])
+		return bval(c.E.implementsPred(c.E.typeByName(lit), v.C[0]))
 	case "typeIs":
 		// typeIs(ifaceValue, "pkg.Type") / typeIs(v, "*pkg.Type")
 		v := c.tr(args[0])
